@@ -80,6 +80,34 @@ func runC02(c *Ctx) bool {
 		evalC02(c, cs)
 		c.Progress(false)
 	}
+	// wide parents with repeated names, deep spines, and documents with more roots than any
+	// batch, pool or channel the pipeline may use (66 ... 300 small roots)
+	extra := base + nRand
+	for k, w := range []int{31, 32, 33, 64, 65, 66, 128, 129, 256, 257, -66, -130, 1066, 1130, 1300} {
+		idx := extra + k
+		if !c.Mine(idx) {
+			continue
+		}
+		cs := &Case{Idx: idx, Kind: "wide-deep-or-many-roots", Seed: uint64(idx)}
+		switch {
+		case w > 1000:
+			r := gen.New(c.Seed, 203, uint64(k))
+			var f model.Forest
+			for i := 0; i < w-1000; i++ {
+				t := gen.RandForest(r, 3, 3, []int{gen.ClassPlain}, 0)[0]
+				t.Name = "root" + strconv.Itoa(i)
+				f = append(f, t)
+			}
+			cs.Depths, cs.Names = gen.Depths(f)
+		case w > 0:
+			cs.Depths, cs.Names = gen.WideDup(w, []int{0, w / 2, w - 2, w - 1})
+		default:
+			cs.Depths, cs.Names = gen.DeepMixed(-w)
+		}
+		c.Journal(cs)
+		evalC02(c, cs)
+		c.Progress(false)
+	}
 	return true
 }
 
